@@ -214,6 +214,7 @@ func main() {
 	c.perSig = map[string]int{}
 	c.res = proto.Result{Property: c.Prop, Shard: c.Shard, Build: c.Build, Exhaustive: true,
 		SigCounts: map[string]int64{}, Counters: map[string]int64{}, Maxima: map[string]int64{}, Notes: map[string]string{}}
+	snapshotPackageState()
 	f, ok := checks[c.Prop]
 	if !ok {
 		var ids []string
